@@ -14,6 +14,7 @@ import (
 )
 
 func main() {
+	ev.GuardFor("C01")
 	r := ev.Start("C01")
 	r.SetDeadline(ev.Pick(r, 50*time.Second, 900*time.Second))
 	type cfg struct {
@@ -60,6 +61,19 @@ func main() {
 		}
 	}
 	r.Set("large_size_family_calls", famCalls)
+	// build-then-remove families: every size up to the bound, 7 build orders, every single
+	// removal (and every ordered pair of removals for the smaller sizes), checked after each
+	{
+		var tr func(any)
+		if ev.Tracing() {
+			tr = ev.Trace
+		}
+		cases, msg, rp := avlh.RemovalFamilies(ev.Pick(r, 96, 300), ev.Pick(r, 30, 60), false, tr)
+		if msg != "" {
+			r.Report(ev.Violation{Sig: "family|contents", Msg: msg, Replay: rp})
+		}
+		r.Set("removal_family_cases", cases)
+	}
 	r.Set("states", states)
 	r.Set("transitions", trans)
 	r.Set("traces_validated_against_impl", trans)
@@ -107,6 +121,9 @@ func family(n, mod int, ins, del string, calls *int) string {
 	}
 	for step, i := range order(ins, n) {
 		v := i % mod
+		if ev.Tracing() {
+			ev.Trace(map[string]any{"family": ins + "/" + del, "mod": mod, "step": step, "op": "Add", "value": v})
+		}
 		t.Add(v)
 		k := sort.SearchInts(model, v+1)
 		model = append(model, 0)
@@ -134,6 +151,9 @@ func family(n, mod int, ins, del string, calls *int) string {
 	}
 	for step, i := range order(del, n) {
 		v := i % mod
+		if ev.Tracing() {
+			ev.Trace(map[string]any{"family": ins + "/" + del, "mod": mod, "insertions": n, "removal_step": step, "op": "Remove", "value": v})
+		}
 		k := sort.SearchInts(model, v)
 		present := k < len(model) && model[k] == v
 		if got := t.Remove(v); got != present {
